@@ -21,6 +21,7 @@ CONSTANTS
   ModVols,     \* subset of {"none","smaller","equal","larger"}
   MaxOrders,   \* bound on created orders
   MaxOps,      \* bound on number of calls (depth)
+  VolCap,      \* 0, or a bound on every order volume, on the resting volume per side and on the total traded volume (large-volume regime)
   Discipline   \* TRUE: histories obey the documented clock discipline (C01..C04, C06, C07, C13); FALSE: ties allowed (C05)
 
 VARIABLES b, last, n
@@ -73,7 +74,7 @@ Cancel ==
 Modify ==
   \E dt \in Dts, id \in Ids(b), np \in ModPrices, mv \in ModVols :
     LET nv == ModVolOf(O(b, id), mv) IN
-    /\ nv = None \/ nv >= 1
+    /\ nv = None \/ (nv >= 1 /\ (VolCap = 0 \/ nv <= VolCap))
     /\ Step([op |-> "modify", dt |-> dt, id |-> id, p |-> np, v |-> nv])
 
 \* process_event with each of the three instruction kinds
@@ -83,7 +84,7 @@ Event ==
     \/ Step([op |-> "event", dt |-> dt, k |-> "cancel", id |-> id, p |-> None, v |-> None])
     \/ \E np \in ModPrices, mv \in ModVols :
          LET nv == ModVolOf(O(b, id), mv) IN
-         /\ nv = None \/ nv >= 1
+         /\ nv = None \/ (nv >= 1 /\ (VolCap = 0 \/ nv <= VolCap))
          /\ Step([op |-> "event", dt |-> dt, k |-> "modify", id |-> id, p |-> np, v |-> nv])
 
 SetTime == \E d \in {1, 3} : Step([op |-> "settime", t |-> b.now + d])
@@ -101,8 +102,14 @@ Next == \/ Create \/ Cap \/ Place \/ Cancel \/ Modify \/ Event
 Spec == Init /\ [][Next]_vars
 
 ---------------------------------------------------------------------------
-Constr == Discipline => DisciplineOK(b)
-ConstrNext == Discipline => DisciplineOK(b')
+\* valid histories keep per-side resting volume and cumulative traded volume below 2^32: in the large-volume regime
+\* (one specification unit of volume = 1.3 * 10^9 in the real book, DESIGN.md 3.6) that is a bound of 3 units
+VolCapOK(bk) ==
+  VolCap = 0 \/ /\ SideVol(bk, "B") <= VolCap /\ SideVol(bk, "A") <= VolCap
+                /\ SumSeq([i \in 1..Len(bk.trades) |-> bk.trades[i].vol]) <= VolCap
+                /\ \A i \in 1..Len(bk.orders) : bk.orders[i].vol <= VolCap
+Constr == (Discipline => DisciplineOK(b)) /\ VolCapOK(b)
+ConstrNext == (Discipline => DisciplineOK(b')) /\ VolCapOK(b')
 \* TLC evaluates invariants also on states that fail the CONSTRAINT (it only does not
 \* explore them further), so every clause is explicitly restricted to states of the model.
 
